@@ -69,6 +69,41 @@ def concat(c, name, parts):
     return path
 
 
+def diff_paths(want, got, path="", out=None, limit=4):
+    """First few places where the projection of the real store differs from the specification (for the report only)."""
+    if out is None:
+        out = []
+    if len(out) >= limit:
+        return out
+    if isinstance(want, dict) and isinstance(got, dict):
+        for k in sorted(set(want) | set(got)):
+            diff_paths(want.get(k), got.get(k), path + "." + k, out, limit)
+    elif isinstance(want, list) and isinstance(got, list) and len(want) == len(got) and path.split(".")[-1] in (
+            "get", "has", "iters", "snaps", "tables"):
+        for i, (w, g) in enumerate(zip(want, got)):
+            diff_paths(w, g, "%s[%d]" % (path, i), out, limit)
+    elif want != got and not (want in ([], {}) and got in ([], {})):
+        out.append((path.lstrip("."), want, got))
+    return out
+
+
+def describe(name, m, conf):
+    parts = []
+    for path, w, g in diff_paths(m.get("want"), m.get("got")):
+        what = path
+        if "iters[" in path:
+            i = int(path.split("iters[")[1].split("]")[0])
+            what += " NewIterator(prefix=%r, start=%r)" % tuple(conf["iters"][i])
+        elif "get[" in path or "has[" in path:
+            i = int(path.rsplit("[", 1)[1].split("]")[0])
+            what += " key %r" % conf["probe"][i]
+        parts.append("%s: spec %s, code %s" % (what, json.dumps(w)[:160], json.dumps(g)[:160]))
+    if not parts:
+        parts = ["spec %s, code %s" % (json.dumps(m.get("want"))[:200], json.dumps(m.get("got"))[:200])]
+    return "%s %s: %s -- after %s from state %s (%s)" % (name, m["kind"], "; ".join(parts), json.dumps(m["edge"]["act"])[:160],
+                                                        json.dumps(m["edge"]["pre"])[:240], m.get("mode"))
+
+
 def kv_replay(c, spec, adapters, edges, conf, walks, wlen, par, clause, timeout=3000):
     """Pattern R through `vh kvreplay`: every adapter replays every transition from a rebuilt pre-state and
     walks the graph on a long-lived object; mismatches between the specification and the real code become
@@ -90,9 +125,7 @@ def kv_replay(c, spec, adapters, edges, conf, walks, wlen, par, clause, timeout=
         if rep is None or rep.get("applied", 0) == 0:
             raise vlib.Infra("replay applied no transition for adapter " + name)
         for m in rep.get("mismatches") or []:
-            c.violation(clause, m["sig"], "%s %s after %s: spec wants %s, code gave %s (mode %s)" % (
-                name, m["kind"], json.dumps(m["edge"]["act"])[:200], json.dumps(m.get("want"))[:300],
-                json.dumps(m.get("got"))[:300], m.get("mode")), replay=m)
+            c.violation(clause, m["sig"], describe(name, m, conf), replay=m)
         for sig, n in (rep.get("sigs") or {}).items():
             if not any(m["sig"] == sig for m in rep.get("mismatches") or []):
                 c.violation(clause, sig, "%s: %d mismatching transitions" % (name, n))
